@@ -333,6 +333,8 @@ def api_checks(ex, kinds, text, names, real_ok):
     for a_, n_ in zip(kinds, names[1:]):
         if a_ == "PLUS" and n_ is not None:
             metadata_semantics(ex, n_)
+    if "STAR" in kinds:
+        star_semantics(ex)
     _compile_expression([text, "zz9"])
     _compile_expression([text, text])
     again = list(parsing.compile_str(text))
@@ -383,6 +385,57 @@ def metadata_semantics(ex, n):
     o.add_trait("late", Any(**{n: 0}))
     o.late = 1
     ex.check(seen[-1:] == ["late"], "... including a matching trait added later")
+    # a connector after '+name' continues on the matched traits' VALUES exactly as after a name: also on a default created after
+    # the registration and on an equal object assigned later
+    from traits.api import Instance, Int
+    if "leaf" not in _META:
+        class FxLeaf(HasTraits):
+            value = Int()
+
+            def __eq__(self, other):
+                return isinstance(other, FxLeaf) and self.value == other.value
+
+            def __hash__(self):
+                return hash(self.value)
+        _META["leaf"] = FxLeaf
+    FxLeaf = _META["leaf"]
+    key = ("nested", n)
+    if key not in _META:
+        _META[key] = type("FxMetaNested_" + n, (HasTraits,), {"kid": Instance(FxLeaf, (), **{n: True}), "plain": Instance(FxLeaf, ())})
+    for conn in (".", ":"):
+        p = _META[key]()
+        got = []
+        p.observe(lambda e: got.append((e.object, e.name, e.new)), "+" + n + conn + "value")
+        p.kid.value = 3             # the first access creates the default
+        p.plain.value = 9
+        old = p.kid
+        new = FxLeaf(value=3)
+        p.kid = new                 # equal, distinct
+        new.value = 4
+        old.value = 5
+        nested = [g for g in got if g[1] == "value"]
+        ex.check(len(nested) == 2 and nested[0][0] is old and nested[0][2] == 3 and nested[1][0] is new and nested[1][2] == 4,
+                 "'+name' followed by a connector continues on the values of the matched traits as a name would (a default created "
+                 "later, an equal object assigned later)")
+
+
+def star_semantics(ex):
+    """'*' observes every trait of the object, whatever it is called - a trait literally named like an items event included"""
+    from traits.api import HasTraits, Any, List, Int
+    if "star" not in _META:
+        _META["star"] = type("FxStar", (HasTraits,), {"plain": Any, "line_items": Any, "kids": List(Int), "_under": Any, "x_": Any})
+    o = _META["star"]()
+    seen = []
+    o.observe(lambda e: seen.append(e.name), "*")
+    o.plain = 1
+    o.line_items = 2
+    o.kids = [1]
+    o._under = 3
+    ex.check(seen == ["plain", "line_items", "kids", "_under"], "'*' observes every trait of the object whatever its name (also one named like "
+                                                                "an items event or starting with an underscore)")
+    o.add_trait("more_items", Any())
+    o.more_items = 5
+    ex.check(seen[-1:] == ["more_items"], "... including a trait added later")
 
 
 _SEEN = []       # (denotation, expression, graphs, text) of strings met earlier in this worker process
